@@ -456,7 +456,12 @@ int64_t cmi_pool_acquire_inner(struct cmb_resourcepool *rpp,
                 const bool found = cmi_process_remove_holdable(victim, hrp);
                 cmb_assert_debug(found == true);
 
-                /* Schedule a wakeup for it, but do not switch context yet */
+                /*
+                 * Withdraw whatever wakeups it has pending, so that none of them
+                 * resumes it with success in this same instant, before it is told.
+                 * Then schedule the wakeup for it, but do not switch context yet.
+                 */
+                cmi_process_cancel_awaiteds(victim);
                 cmb_process_interrupt(victim, CMB_PROCESS_PREEMPTED, victim->priority);
 
                  /* Split the loot */
